@@ -25,12 +25,14 @@ RunVerdict(ev, run) ==
     LET prog == ev.prog
         encOk == \A i \in 1..Len(ev.ptys) : run.in_bits[i] = Encode(prog, ev.ptys[i], run.args[i])
         res == Run(prog, run.args)
-        exp == IF res.st.oom THEN [kind |-> "oom"]
+        exp == IF res.st.tyerr THEN [kind |-> "type_annotation_contradicts_scoping"]
+               ELSE IF res.st.oom THEN [kind |-> "oom"]
                ELSE IF res.st.panic # {} THEN [kind |-> "panic", admissible |-> res.st.panic]
                ELSE [kind |-> "ok", bits |-> Encode(prog, ev.ret, res.v)]
         CfgOk(c) ==
             LET out == run.outs[c]
             IN  IF exp.kind = "oom" THEN TRUE
+                ELSE IF exp.kind = "type_annotation_contradicts_scoping" THEN FALSE
                 ELSE IF Len(out) # PANIC_BITS + SizeOf(prog, ev.ret) THEN FALSE
                 ELSE IF exp.kind = "ok" THEN ~PanicOf(out).panicked /\ ValueBitsOf(out) = exp.bits
                 ELSE LET p == PanicOf(out)
